@@ -453,6 +453,17 @@ fn large_cleanup_case(cx: &mut Cx) {
         if !after.is_subset(&before) {
             cx.violation("cleanup-added-records", "clean-up added records".to_string(), w.clone());
         }
+        // a record the clean-up removed is gone for readers too (the most recently put ones are still in the cache
+        // when the clean-up runs), and it can be stored again later
+        let removed: Vec<&Vec<u8>> = keys.iter().rev().filter(|k| before.contains(*k) && !after.contains(*k)).take(40).collect();
+        for k in &removed {
+            cx.eval();
+            if sim.get_local(0, &RecordKey::from((*k).clone())).is_some() {
+                cx.violation("cleaned-up-record-still-readable", format!("a record removed by the clean-up (d={}) is still returned by get", short_hex(&ref_distance(&me.to_bytes(), k))), w.clone());
+                break;
+            }
+        }
+        cx.count_n("cleaned-up-records-read-back", removed.len() as u64);
         // the records a quote counts as "within the responsible range" are exactly those the clean-up keeps
         // (the range is the distance of a held record here, so one record sits exactly on the edge)
         cx.count("quotes-judged-against-cleanup");
